@@ -366,6 +366,24 @@ inductive Op where
   | nop                                  -- onPodUpdate of a terminated pod; pod without a gang
 deriving Repr, DecidableEq
 
+/-! ### informer delivery: client-go → the handler NewPodGroupManager registered → onPodDelete / onPodGroupDelete -/
+
+/-- What a shared informer hands to `OnDelete`: 0 = the object itself; 1 = a `cache.DeletedFinalStateUnknown` BY VALUE
+    around the last known object (a delete noticed on re-list); anything else = a shape the type switch at the head of
+    onPodDelete / onPodGroupDelete does not understand (pointer to a tombstone, tombstone around another type or nil):
+    logged and dropped. -/
+def delUnderstood (shape : Nat) : Bool := decide (shape ≤ 1)
+
+/-- core.go NewPodGroupManager, the handler handed to the informer.  wiring 0 = the `cache.ResourceEventHandlerFuncs`
+    {AddFunc, UpdateFunc, DeleteFunc} literal itself: every informer call reaches the GangCache method (the code; a
+    regenerated fact).  wiring 1 = the same literal behind a `cache.FilteringResourceEventHandler` whose filter wants an
+    object of the resource's own type: a tombstone is not one, so `OnDelete(tombstone)` is dropped before onPodDelete. -/
+def handlerForwardsDel (wiring shape : Nat) : Bool := wiring == 0 || shape == 0
+
+/-- the delete event as the GangCache sees it -/
+def deliverDel (wiring shape : Nat) (op : Op) : Op :=
+  if handlerForwardsDel wiring shape && delUnderstood shape then op else .nop
+
 def step (s : State) : Op → State × Out
   | .pgAdd g c => (pgAdd s g c, {})
   | .pgUpd g c => (pgUpd s g c, {})
